@@ -322,6 +322,7 @@ func runC02(x *runner, t *target, ti int, mine []sealReq, sealed map[int][]byte)
 	}
 	// which bases get EVERY bit flip / truncation / extension (the others: field boundaries and samples)
 	isCore := x.full && core(t, ti)
+	big := t.rkind() == "padded" && t.PadTo > 1000 // 4 kB envelopes: field boundaries and samples only
 	lens := []int{1, 17}
 	if isCore {
 		lens = []int{1, 17, 0}
@@ -332,7 +333,7 @@ func runC02(x *runner, t *target, ti int, mine []sealReq, sealed map[int][]byte)
 		pt := content(x.r, n, bi+ti)
 		ad, _ := adOf(x.r, bi+ti+2)
 		if ct := x.encrypt(t, pt, ad); ct != nil {
-			bases = append(bases, base{ct, ad, pt, "tink", lay, (isCore && bi == 0) || (!x.full && bi == 0 && ti%2 == 0)})
+			bases = append(bases, base{ct, ad, pt, "tink", lay, !big && ((isCore && bi == 0) || (!x.full && bi == 0 && ti%2 == 0))})
 		}
 	}
 	for _, q := range mine {
@@ -344,7 +345,7 @@ func runC02(x *runner, t *target, ti int, mine []sealReq, sealed map[int][]byte)
 		if t.Mode == "keyset" {
 			l = t.Keys[q.Key]
 		}
-		bases = append(bases, base{ct, q.Ad, q.Pt, "spec", l, q.Muts && q.Key == 0 && (isCore || (!x.full && ti%2 == 1))})
+		bases = append(bases, base{ct, q.Ad, q.Pt, "spec", l, !big && q.Muts && q.Key == 0 && (isCore || (!x.full && ti%2 == 1))})
 	}
 	var prods []pair
 	for _, b := range bases {
@@ -387,6 +388,10 @@ func replay(path string, x *runner) {
 		return
 	}
 	t := &target{Mode: str("mode"), Route: str("route"), DEK: str("dekTmpl")}
+	t.RKind = str("rkind")
+	if v, ok := e["padTo"].(float64); ok {
+		t.PadTo = int(v)
+	}
 	if ep := vt.Unhex(str("ep")); len(ep) == 5 {
 		t.Env = keyCfg{Variant: map[byte]string{1: "TINK", 0: "CRUNCHY"}[ep[0]], ID: binary.BigEndian.Uint32(ep[1:])}
 	}
